@@ -53,4 +53,22 @@ def run(ctx):
         ctx.ob(f"{ty.rsplit('::',1)[1]}|nth_root|zero-degree-guard", ok, f"n == 0 tests at bb{[s for s, _ in zero_guard]}; the zero arm reaches neither `n - 1` nor nth_root(n)", b.loc())
         neg = b.call_bool_guards(r"::is_negative$")
         ctx.ob(f"{ty.rsplit('::',1)[1]}|nth_root|negative-even-guard", len(neg) >= 1, f"{len(neg)} test(s) on is_negative() (even root of a negative value is refused)", b.loc())
+    ctx.rule("T6 refinement: inside checked_powi the overflow-panicking operator `*` / `+` / `-` of the wide integers is applied to constants "
+             "only (ONE * ONE); every product of a variable operand goes through checked_mul — `base * base` in the widened type still overflows "
+             "for large bases and would panic instead of returning None")
+    for ty in ("radix_common::math::decimal::Decimal", "radix_common::math::precise_decimal::PreciseDecimal"):
+        n = ty + "::checked_powi"
+        if not ctx.anchor(n):
+            continue
+        bad = []
+        n_ops = 0
+        for b in ctx.bodies_of(n):
+            for bb, t in b.calls(r"bnum_integer::\w+ as core::ops::arith::(Mul|Add|Sub)(<[^>]*>)?>::(mul|add|sub)$"):
+                n_ops += 1
+                srcs = [origin_names(b, a) for a in t["args"][:2]]
+                if not all(s_ and all(x.startswith("const:") for x in s_) for s_ in srcs):
+                    bad.append((t["f"].rsplit("::", 1)[-1], b.loc(bb)))
+        ctx.ob(f"{ty.rsplit('::', 1)[1]}|powi|panicking-operators-on-constants-only", not bad,
+               f"{n_ops} operator product(s)/sum(s), all on constants" if not bad else f"overflow-panicking operator applied to a variable operand: {[b_[0] for b_ in bad]}",
+               bad[0][1] if bad else "")
     ctx.assume("that roots/powers are the exact results truncated toward zero, and never exceed the exact result in magnitude, is numerical and not decided")
